@@ -1,4 +1,7 @@
 mod drv_bool;
+mod drv_circuit;
+mod drv_hashtbl;
+mod drv_num;
 mod ext;
 mod kinds;
 mod session;
@@ -37,6 +40,9 @@ fn main() {
         "tables" => by_kind!(kind, tables, &args),
         "hist" => by_kind!(kind, hist, &args),
         "reorder" => by_kind!(kind, reorder, &args),
+        d if d.starts_with("hashtbl") => drv_hashtbl::run(d, &args),
+        d if d.starts_with("circuit") || d.starts_with("parse") => drv_circuit::run(d, &args),
+        d if d.starts_with("num") || d.starts_with("natural") => drv_num::run(d, &args),
         d => {
             eprintln!("unknown driver {d}");
             std::process::exit(2);
